@@ -74,6 +74,24 @@ def catalog():
         "setup": [build(["throttle-block"], {"kind": "pool", "workers": 1}), sub("p0", [["gate", "g", ["tag"]]]), sub("p1"), ["sleep", 0.25]],
         "threads": [[["sleep", 0.5], shutdown_op(False, None), ["open", "g"], ["sleep", 1.0], sub("after")], [sub("s0")]],
         "settle": 2, "final": [["open", "g"]]}}
+    # the retry layer's own worker is parked inside a blocking throttle's submit(): shutdown(wait=True) must release it
+    # (by shutting the delegate down) before it joins it
+    # (the job in flight never finishes: it is being polled by a poll function that never yields, so only shutdown can free the worker)
+    never = dict(LAYERS["poll"], per_sub={"p0.fn": {"after": None}, "p1.fn": {"after": None}, "p2.fn": {"after": None}}, tap=True)
+    for wait in (True, False):
+        out["parked-worker/retry-over-throttle-block/wait=%s" % wait] = {"prog": {
+            "setup": [["build", "ex", {"base": {"kind": "sync"}, "layers": [never, dict(LAYERS["throttle-block"], tap=True), dict(LAYERS["retry"], tap=True)]}],
+                      sub("p0"), sub("p1"), sub("p2"), ["sleep", 0.25]],
+            "threads": [[["sleep", 0.5], shutdown_op(wait, None), ["threads"], sub("after")]],
+            "settle": 2, "final": []}}
+    # a submit() that fails below the gate (the base cannot start a thread) must leave the executor usable and closable
+    # from other threads while the failing thread lives on
+    for lname in ("map", "flat_map", "timeout", "poll", "cos"):
+        out["failed-submit/" + lname] = {"prog": {
+            "setup": [build([lname], man), ["base_fail", "ex", 1]],
+            "threads": [[sub("f0"), ["sleep", 3.0]],
+                        [["sleep", 0.5], sub("s0"), ["runall", "ex"], shutdown_op(True, None), ["threads"], sub("after")]],
+            "settle": 2, "final": [["runall", "ex"], ["sleep", 1]]}}
     for names in (["retry", "poll"], ["throttle", "retry", "cos"], ["timeout", "map", "throttle"], ["poll", "flat_map", "retry", "timeout"]):
         out["chain/" + "+".join(names)] = {"prog": {
             "setup": [build(names, {"kind": "pool", "workers": 1}), sub("p0", [["raise", "E0"], ["tag"]]), sub("p1"), ["sleep", 0.25]],
@@ -130,6 +148,8 @@ def evaluate(case):
             # (a submit aimed at a wrapped executor is only covered once every shutdown() call in progress has returned)
             if not (r[0] == "exc" and r[1] == "RuntimeError" and r[2] == MSG):
                 bad("submit-after-shutdown:%s" % (r[1] if r[0] == "exc" else r[0]), result=r[:3], level=o["op"][1])
+        elif r[0] == "exc" and r[1] == "OSError" and any(ev[3] == "base_submit_failed" and o["call_seq"] < ev[0] < o["ret_seq"] for ev in s.events):
+            pass  # the injected fault of the base, propagated to the caller
         elif r[0] == "exc" and not (r[1] == "RuntimeError" and r[2] == MSG):
             bad("racing-submit-raised-other:%s" % r[1], result=r[:3])
         elif r[0] == "exc" and o["ret_seq"] < min(x["call_seq"] for x in sds):
